@@ -26,6 +26,8 @@ structure Quirks where
   dimacsSingleClause : Bool := false
   /-- `to_bqm`: `_ret = <symbol>` takes the `AndConst` branch -/
   retSymbolAndConst : Bool := false
+  /-- `DeutschJozsa.decode_output` compares the decoded *value* with `0` -/
+  djDecodeEqZero : Bool := false
   deriving Repr, DecidableEq, Inhabited
 
 def Quirks.none : Quirks := {}
@@ -39,6 +41,7 @@ def Quirks.ofList (l : List String) : Quirks :=
     repeatZero := l.contains "repeatZero"
     identityGateRaises := l.contains "identityGateRaises"
     dimacsSingleClause := l.contains "dimacsSingleClause"
-    retSymbolAndConst := l.contains "retSymbolAndConst" }
+    retSymbolAndConst := l.contains "retSymbolAndConst"
+    djDecodeEqZero := l.contains "djDecodeEqZero" }
 
 end QV
